@@ -84,9 +84,11 @@ def HashSound (spec : SolverSpec cnf S) : Prop :=
     residual cnf (spec.modelOf s1) = residual cnf (spec.modelOf s2)
 
 /-- ADDED hypothesis: deciding an unassigned variable that does not occur in the residual
-formula is never UNSAT, assigns only that variable, and keeps the hash and the sat-flag. -/
+formula is never UNSAT, assigns only that variable, and keeps the hash and the sat-flag.
+Only required of states with at least two frames (the bottom frame of `SATSolver::new` is the
+empty model, which is not closed under unit propagation). -/
 def FreeDecide (spec : SolverSpec cnf S) : Prop :=
-  ∀ s f0 rest v b, spec.Inv s → spec.frames s = f0 :: rest → f0.model v = none →
+  ∀ s f0 rest v b, spec.Inv s → spec.frames s = f0 :: rest → rest ≠ [] → f0.model v = none →
     ¬ InCnf (residual cnf f0.model) v →
     (S.decide s ⟨v, b⟩).1 ≠ .unsat ∧
     ∀ f1 rest', spec.frames (S.decide s ⟨v, b⟩).2 = f1 :: rest' →
@@ -304,8 +306,8 @@ theorem branch_spec (recur : S.σ → Cache S.κ → NS.τ → HRes S NS) (v : N
     (s : S.σ) (cache : Cache S.κ) (t : NS.τ) (f0 : Frame S.κ) (rest : List (Frame S.κ))
     (hI : spec.Inv s) (hfr : spec.frames s = f0 :: rest) (hv0 : f0.model v = none) (ht : inv t)
     (hc : CacheOK spec cache)
-    (hrec : ∀ s' c' t' f' rest', spec.Inv s' → spec.frames s' = f' :: rest' → inv t' → CacheOK spec c' →
-      PExt (f0.model.set v b) f'.model → Post spec inv f' rest' (recur s' c' t')) :
+    (hrec : ∀ s' c' t' f' rest', spec.Inv s' → spec.frames s' = f' :: rest' → rest' ≠ [] → inv t' →
+      CacheOK spec c' → PExt (f0.model.set v b) f'.model → Post spec inv f' rest' (recur s' c' t')) :
     BranchGood cnf f0.model v b (branch S NS recur s cache t ⟨v, b⟩).1 ∧
     spec.Inv (branch S NS recur s cache t ⟨v, b⟩).2.1 ∧
     spec.frames (branch S NS recur s cache t ⟨v, b⟩).2.1 = f0 :: rest ∧
@@ -333,7 +335,7 @@ theorem branch_spec (recur : S.σ → Cache S.κ → NS.τ → HRes S NS) (v : N
   · -- Unknown
     obtain ⟨f1, hI1, hfr1, hext, hent, hrel, _⟩ := hok (by simp)
     simp only at hI1 hfr1 hext hent hrel ⊢
-    have hp := hrec s1 cache t f1 (f0 :: rest) hI1 hfr1 ht hc hext
+    have hp := hrec s1 cache t f1 (f0 :: rest) hI1 hfr1 (List.cons_ne_nil _ _) ht hc hext
     generalize recur s1 cache t = res at hp ⊢
     obtain ⟨sub, s2, c1, t1⟩ := res
     obtain ⟨hsub, hI2, hfr2, hc1, ht1⟩ := hp
@@ -346,24 +348,24 @@ omit hNS in
 /-- a decision on a variable outside the residual formula: `branch` is just the recursive call -/
 theorem branch_irrelevant (hfree : FreeDecide spec) (recur : S.σ → Cache S.κ → NS.τ → HRes S NS)
     (v : Nat) (b : Bool) (s : S.σ) (cache : Cache S.κ) (t : NS.τ) (f0 : Frame S.κ) (rest : List (Frame S.κ))
-    (hI : spec.Inv s) (hfr : spec.frames s = f0 :: rest) (hv0 : f0.model v = none)
+    (hI : spec.Inv s) (hfr : spec.frames s = f0 :: rest) (hrest : rest ≠ []) (hv0 : f0.model v = none)
     (hirr : ¬ InCnf (residual cnf f0.model) v) (hs0 : f0.sat = false)
-    (hrec : ∀ f' rest', spec.Inv (S.decide s ⟨v, b⟩).2 → spec.frames (S.decide s ⟨v, b⟩).2 = f' :: rest' →
+    (hrec : ∀ f', spec.Inv (S.decide s ⟨v, b⟩).2 → spec.frames (S.decide s ⟨v, b⟩).2 = f' :: f0 :: rest →
       f'.model = f0.model.set v b →
       spec.Inv (recur (S.decide s ⟨v, b⟩).2 cache t).2.1 ∧
-      spec.frames (recur (S.decide s ⟨v, b⟩).2 cache t).2.1 = f' :: rest') :
+      spec.frames (recur (S.decide s ⟨v, b⟩).2 cache t).2.1 = f' :: f0 :: rest) :
     ∃ f1, spec.Inv (S.decide s ⟨v, b⟩).2 ∧ spec.frames (S.decide s ⟨v, b⟩).2 = f1 :: f0 :: rest ∧
       f1.model = f0.model.set v b ∧ f1.hash = f0.hash ∧ f1.sat = f0.sat ∧
       branch S NS recur s cache t ⟨v, b⟩ =
         ((recur (S.decide s ⟨v, b⟩).2 cache t).1, S.pop (recur (S.decide s ⟨v, b⟩).2 cache t).2.1,
          (recur (S.decide s ⟨v, b⟩).2 cache t).2.2.1, (recur (S.decide s ⟨v, b⟩).2 cache t).2.2.2) := by
-  obtain ⟨hne, hfd⟩ := hfree s f0 rest v b hI hfr hv0 hirr
+  obtain ⟨hne, hfd⟩ := hfree s f0 rest v b hI hfr hrest hv0 hirr
   obtain ⟨f1, hI1, hfr1, _, _, _, hsat⟩ := spec.decide_ok s f0 rest ⟨v, b⟩ hI hfr hv0 hne
   obtain ⟨hm, hh, hs⟩ := hfd f1 _ hfr1
   refine ⟨f1, hI1, hfr1, hm, hh, hs, ?_⟩
   have hnsat : (S.decide s ⟨v, b⟩).1 ≠ .sat := by
     intro e; have := hsat.1 e; rw [hs, hs0] at this; cases this
-  obtain ⟨hI2, hfr2⟩ := hrec _ _ hI1 hfr1 hm
+  obtain ⟨hI2, hfr2⟩ := hrec _ hI1 hfr1 hm
   unfold branch
   generalize S.decide s ⟨v, b⟩ = d at hne hnsat hI2 hfr2 ⊢
   obtain ⟨tag, s1⟩ := d
@@ -416,11 +418,13 @@ include hNS
 
 /-- the cache-miss part of `topdown_h`, given the induction hypothesis for the recursive call -/
 theorem decideNode_spec (hhash : HashSound spec) (hfree : FreeDecide spec) (rem level : Nat)
-    (IH : ∀ s cache t f0 rest, spec.Inv s → spec.frames s = f0 :: rest → inv t → CacheOK spec cache →
+    (IH : ∀ s cache t f0 rest, spec.Inv s → spec.frames s = f0 :: rest → rest ≠ [] → inv t →
+      CacheOK spec cache →
       (∀ i, i < level + 1 → f0.model (varAt i) ≠ none) →
       Post spec inv f0 rest (topdownH S NS varAt rem (level + 1) s cache t))
     (s : S.σ) (cache : Cache S.κ) (t : NS.τ) (f0 : Frame S.κ) (rest : List (Frame S.κ))
-    (hI : spec.Inv s) (hfr : spec.frames s = f0 :: rest) (ht : inv t) (hc : CacheOK spec cache)
+    (hI : spec.Inv s) (hfr : spec.frames s = f0 :: rest) (hrest : rest ≠ []) (ht : inv t)
+    (hc : CacheOK spec cache)
     (hlev : ∀ i, i < level → f0.model (varAt i) ≠ none) (hv0 : f0.model (varAt level) = none)
     (hs0 : f0.sat = false) :
     Post spec inv f0 rest
@@ -431,11 +435,11 @@ theorem decideNode_spec (hhash : HashSound spec) (hfree : FreeDecide spec) (rem 
     intro s c t; rw [← hrecur]
   generalize hv : varAt level = v at hv0 ⊢
   -- the induction hypothesis in the form `branch_spec` wants
-  have hrecB : ∀ b s' c' t' f' rest', spec.Inv s' → spec.frames s' = f' :: rest' → inv t' →
+  have hrecB : ∀ b s' c' t' f' rest', spec.Inv s' → spec.frames s' = f' :: rest' → rest' ≠ [] → inv t' →
       CacheOK spec c' → PExt (f0.model.set v b) f'.model → Post spec inv f' rest' (recur s' c' t') := by
-    intro b s' c' t' f' rest' h1 h2 h3 h4 h5
+    intro b s' c' t' f' rest' h1 h2 h2' h3 h4 h5
     rw [hrec_eq]
-    apply IH s' c' t' f' rest' h1 h2 h3 h4
+    apply IH s' c' t' f' rest' h1 h2 h2' h3 h4
     intro i hi
     by_cases e : varAt i = v
     · rw [e, h5 v b (by simp [PModel.set])]; simp
@@ -470,18 +474,20 @@ theorem decideNode_spec (hhash : HashSound spec) (hfree : FreeDecide spec) (rem 
         apply e
         -- both branches are the recursive call; the second one hits the cache entry of the first
         obtain ⟨f1, hIa, hfra, hma, hha, hsa, hbra⟩ :=
-          branch_irrelevant spec hfree recur v true s cache t f0 rest hI hfr hv0 hirr hs0
+          branch_irrelevant spec hfree recur v true s cache t f0 rest hI hfr hrest hv0 hirr hs0
             (by
-              intro f' rest' h1 h2 h3
-              have := hrecB true _ cache t f' rest' h1 h2 ht hc (by rw [h3]; exact PExt.refl _)
+              intro f' h1 h2 h3
+              have := hrecB true _ cache t f' (f0 :: rest) h1 h2 (List.cons_ne_nil _ _) ht hc
+                (by rw [h3]; exact PExt.refl _)
               exact ⟨this.2.1, this.2.2.1⟩)
         have hbr1 : brHi recur v s cache t = _ := hbra
         obtain ⟨f1', hIb, hfrb, hmb, hhb, hsb, hbrb⟩ :=
           branch_irrelevant spec hfree recur v false (brHi recur v s cache t).2.1
-            (brHi recur v s cache t).2.2.1 (brHi recur v s cache t).2.2.2 f0 rest hI1 hfr1 hv0 hirr hs0
+            (brHi recur v s cache t).2.2.1 (brHi recur v s cache t).2.2.2 f0 rest hI1 hfr1 hrest hv0 hirr hs0
             (by
-              intro f' rest' h1 h2 h3
-              have := hrecB false _ _ _ f' rest' h1 h2 ht1 hc1 (by rw [h3]; exact PExt.refl _)
+              intro f' h1 h2 h3
+              have := hrecB false _ _ _ f' (f0 :: rest) h1 h2 (List.cons_ne_nil _ _) ht1 hc1
+                (by rw [h3]; exact PExt.refl _)
               exact ⟨this.2.1, this.2.2.1⟩)
         have hbr2 : brLo recur v s cache t = _ := hbrb
         have hobs : ObsEq S (S.decide s ⟨v, true⟩).2 (S.decide (brHi recur v s cache t).2.1 ⟨v, false⟩).2 := by
@@ -518,18 +524,19 @@ residual formula; the solver stack is as before; the cache is still sound. -/
 theorem topdownH_post (hhash : HashSound spec) (hfree : FreeDecide spec) (numVars : Nat)
     (hvarAt : ∀ v, InCnf cnf v → ∃ i, i < numVars ∧ varAt i = v) :
     ∀ (rem level : Nat) (s : S.σ) (cache : Cache S.κ) (t : NS.τ) (f0 : Frame S.κ) (rest : List (Frame S.κ)),
-      level + rem = numVars → spec.Inv s → spec.frames s = f0 :: rest → inv t → CacheOK spec cache →
+      level + rem = numVars → spec.Inv s → spec.frames s = f0 :: rest → rest ≠ [] → inv t →
+      CacheOK spec cache →
       (∀ i, i < level → f0.model (varAt i) ≠ none) →
       Post spec inv f0 rest (topdownH S NS varAt rem level s cache t)
-  | 0, level, s, cache, t, f0, rest, hl, hI, hfr, ht, hc, hlev => by
+  | 0, level, s, cache, t, f0, rest, hl, hI, hfr, _, ht, hc, hlev => by
     rw [topdownH_zero]
     refine ⟨GoodM.tru_of (spec.total_sound s f0 rest hI hfr ?_), hI, hfr, hc, ht⟩
     intro v hv
     obtain ⟨i, hi, e⟩ := hvarAt v hv
     rw [← e]; exact hlev i (by omega)
-  | rem + 1, level, s, cache, t, f0, rest, hl, hI, hfr, ht, hc, hlev => by
-    have IH := fun s cache t f0 rest h1 h2 h3 h4 h5 =>
-      topdownH_post hhash hfree numVars hvarAt rem (level + 1) s cache t f0 rest (by omega) h1 h2 h3 h4 h5
+  | rem + 1, level, s, cache, t, f0, rest, hl, hI, hfr, hrest, ht, hc, hlev => by
+    have IH := fun s cache t f0 rest h1 h2 h2' h3 h4 h5 =>
+      topdownH_post hhash hfree numVars hvarAt rem (level + 1) s cache t f0 rest (by omega) h1 h2 h2' h3 h4 h5
     rw [topdownH_succ]
     by_cases hsat : S.isSat s = true
     · rw [if_pos hsat]
@@ -538,7 +545,7 @@ theorem topdownH_post (hhash : HashSound spec) (hfree : FreeDecide spec) (numVar
     · rw [if_neg hsat]
       by_cases hset : S.isSet s (varAt level) = true
       · rw [if_pos hset]
-        apply IH s cache t f0 rest hI hfr ht hc
+        apply IH s cache t f0 rest hI hfr hrest ht hc
         intro i hi
         rcases Nat.lt_succ_iff_lt_or_eq.1 hi with h | h
         · exact hlev i h
@@ -555,7 +562,7 @@ theorem topdownH_post (hhash : HashSound spec) (hfree : FreeDecide spec) (numVar
           exact ⟨hgood.transfer this, hI, hfr, hc, ht⟩
         | none =>
           simp only
-          apply decideNode_spec spec hNS varAt hhash hfree rem level IH s cache t f0 rest hI hfr ht hc hlev
+          apply decideNode_spec spec hNS varAt hhash hfree rem level IH s cache t f0 rest hI hfr hrest ht hc hlev
           · rw [spec.obs_set s f0 rest hI hfr] at hset
             cases hm : f0.model (varAt level) with
             | none => rfl
@@ -598,7 +605,7 @@ theorem compileTopdown_post (hhash : HashSound spec) (hfree : FreeDecide spec) (
   | some s =>
     obtain ⟨f1, f0, hI, hfr, hf0, hent⟩ := hnew.some_ok s hn
     have hp := topdownH_post spec hNS varAt hhash hfree numVars hvarAt numVars 0 s [] t f1 [f0]
-      (by omega) hI hfr ht (CacheOK_nil spec) (fun i hi => absurd hi (Nat.not_lt_zero i))
+      (by omega) hI hfr (List.cons_ne_nil _ _) ht (CacheOK_nil spec) (fun i hi => absurd hi (Nat.not_lt_zero i))
     simp only
     generalize topdownH S NS varAt numVars 0 s [] t = res at hp ⊢
     obtain ⟨r0, s1, c1, t1⟩ := res
